@@ -1168,7 +1168,8 @@ class C06(PropCheck):
     id = 'C06'
     extractors = (precedence.generate, units.generate, c06_source.generate)
     modules = ('WpModel.Props.C06', 'WpModel.Props.C06Memo', 'WpModel.Props.C06Values', 'WpModel.Props.C06Ratio',
-               'WpModel.Props.C06Source', 'WpModel.Witness.C06')
+               'WpModel.Props.C06Source', 'WpModel.Props.C06Spec', 'WpModel.Props.C06Hints',
+               'WpModel.Witness.C06')
     trusted_base = (
         'modelled, not verified: StyleFor.__init__ / add_page_declarations weight fold, declaration_precedence, '
         '_page_type_match, preprocess_stylesheet control flow, evaluate/parse_media_query, the media attribute lines of '
@@ -1200,6 +1201,8 @@ class C06(PropCheck):
         docs.quiet()
         TALLY.lines.clear()
         c06_real.regression_section(run)            # corpus first
+        c06_real.spec_tables_section(run)
+        c06_real.pres_hints_section(run)
         precedence_section(run)
         matcher_sort_section(run)
         media_section(run)
@@ -1223,6 +1226,9 @@ class C06(PropCheck):
     def judge(self, d):
         return cascade_docs.judge(d, reference_winner, reference_page_match, RANK)
 
+    def classify(self, d):
+        return c06_real.classify_spec(d)
+
     def search(self, run, failures):
         return cascade_docs.search(run, failures, reference_winner)
 
@@ -1231,6 +1237,7 @@ class C06(PropCheck):
         # border-image-width-not-computed) are the corpus-first `regressions` section now
         return {
             'inherit-skips-computed-value': cascade_docs.replay_inherit_skips_computing,
+            'image-orientation-not-inherited': c06_real.replay_image_orientation_not_inherited,
         }
 
     def replay(self, data):
